@@ -59,6 +59,15 @@ def build(score, via="abs"):
     return P.seq_from_rel(P.abs_to_rel(ms))
 
 
+def doubled(score, route="rel"):
+    """The score played twice: a sequence concatenated with itself, so that every Message object occurs twice in the
+    relative view (concatenate shares the messages of its arguments)."""
+    s = build(score, route)
+    x = P.Sequence()
+    x.concatenate([s, s])
+    return x
+
+
 def safe_views(seq):
     v = P.views(seq)
     return v
